@@ -75,17 +75,24 @@ Lemma range_loop_eq : forall fuel i e step, range_loop fuel i e step =
   else Ret [].
 Proof. destruct fuel; reflexivity. Qed.
 
-Lemma range_loop_spec : forall fuel i e step, 0 < step -> (Z.to_nat (e - i) <= fuel)%nat ->
+(* fuel = the number of iterations = ceil((e - i) / step) (what Range passes to make as capacity) *)
+Lemma range_loop_spec : forall fuel i e step, 0 < step ->
+  (Z.to_nat ((e - i + step - 1) / step) <= fuel)%nat ->
   exists r, range_loop fuel i e step = Ret r /\ SInc r /\
             (forall z, In z r <-> exists k, 0 <= k /\ z = i + k * step /\ z < e).
 Proof.
   induction fuel as [|f IH]; intros i e step Hs Hf; rewrite range_loop_eq.
-  - destruct (Z.ltb_spec i e) as [Hlt|Hge]; [lia|].
+  - destruct (Z.ltb_spec i e) as [Hlt|Hge].
+    { exfalso. assert (1 <= (e - i + step - 1) / step) by (apply Z.div_le_lower_bound; lia). lia. }
     exists []. split; [reflexivity|]. split; [apply SInc_nil|]. intros z. simpl. split; [tauto|].
     intros [k [Hk [E L]]]. nia.
   - destruct (Z.ltb_spec i e) as [Hlt|Hge].
     2:{ exists []. split; [reflexivity|]. split; [apply SInc_nil|]. intros z. simpl. split; [tauto|].
         intros [k [Hk [E L]]]. nia. }
+    assert (Hstep : (e - i + step - 1) / step = (e - (i + step) + step - 1) / step + 1).
+    { replace (e - i + step - 1) with ((e - (i + step) + step - 1) + 1 * step) by lia.
+      apply Z.div_add. lia. }
+    assert (0 <= (e - (i + step) + step - 1) / step) by (apply Z.div_pos; lia).
     destruct (IH (i + step) e step Hs) as [r [E [S I]]]; [lia|].
     rewrite E. cbn [bind]. exists (i :: r). split; [reflexivity|]. split.
     + apply SInc_cons; [exact S|]. intros y Hy. apply I in Hy. destruct Hy as [k [Hk [Ey _]]]. nia.
@@ -140,10 +147,10 @@ Proof.
         { pose proof (Z.mul_div_le (start - e - 1) st Hst).
           pose proof (Z.mul_succ_div_gt (start - e - 1) st Hst). fold k in H, H0. lia. }
         cbv zeta. cbn [fst snd].
-        rewrite with_cap_nonneg.
-        2:{ rewrite Z.quot_div_nonneg by nia. apply Z.div_pos; nia. }
-        destruct (range_loop_spec (Z.to_nat (start + 1 - (start - k * st))) (start - k * st) (start + 1) st Hst)
-          as [r [E [S I]]]; [lia|].
+        rewrite (Z.quot_div_nonneg (start + 1 - (start - k * st) + st - 1) st) by nia.
+        rewrite with_cap_nonneg by (apply Z.div_pos; nia).
+        destruct (range_loop_spec (Z.to_nat ((start + 1 - (start - k * st) + st - 1) / st))
+                    (start - k * st) (start + 1) st Hst) as [r [E [S I]]]; [lia|].
         exists r. split; [exact E|]. split; [exact S|].
         intros z. rewrite I. unfold in_range. split.
         -- intros [j [Hj [Ez Lz]]]. exists (k - j).
@@ -155,9 +162,10 @@ Proof.
       * (* ascending *)
         assert (Hst : 0 < step) by lia.
         cbv zeta. cbn [fst snd].
-        rewrite with_cap_nonneg.
-        2:{ rewrite Z.quot_div_nonneg by lia. apply Z.div_pos; lia. }
-        destruct (range_loop_spec (Z.to_nat (e - start)) start e step Hst) as [r [E [S I]]]; [lia|].
+        rewrite (Z.quot_div_nonneg (e - start + step - 1) step) by lia.
+        rewrite with_cap_nonneg by (apply Z.div_pos; lia).
+        destruct (range_loop_spec (Z.to_nat ((e - start + step - 1) / step)) start e step Hst)
+          as [r [E [S I]]]; [lia|].
         exists r. split; [exact E|]. split; [exact S|].
         intros z. rewrite I. unfold in_range. split.
         -- intros [j [Hj [Ez Lz]]]. exists j. split; [exact Hj|]. split; [exact Ez|]. left. nia.
